@@ -31,6 +31,7 @@ type Matcher struct {
 	GlobalAlias map[string]string // canonical global/function name of A -> canonical name in B
 	IgnoreCallees map[string]bool
 	Exact    bool // floating-point results must agree bit for bit
+	valuesOnly bool // compare sampled values only (candidate selection, never a verdict)
 }
 
 func NewMatcher(S *Store, pa, pb *Prog, a, b *Summary, seed uint64, points int) *Matcher {
@@ -193,6 +194,9 @@ func (m *Matcher) eqTerms(a, b *Term) (bool, string) {
 		exactFloat = false
 		if !same {
 			return false, fmt.Sprintf("values differ at sample point %d: %v vs %v", k, va, vb)
+		}
+		if m.valuesOnly {
+			continue
 		}
 		if ok, why := atomsEqual(atA, atB); !ok {
 			return false, why
@@ -900,26 +904,36 @@ func (m *Matcher) pairAllocs(as, bs []interface{}) ([]int, bool) {
 	used := make([]bool, len(bs))
 	for u, x := range as {
 		a := x.(*Event)
-		found := false
-		for v, y := range bs {
-			b := y.(*Event)
-			if used[v] || normType(a.Type) != normType(b.Type) || (a.Len == nil) != (b.Len == nil) {
-				continue
-			}
-			m.quiet++
-			ok := true
-			if a.Len != nil {
-				ok, _ = m.eqTerms(a.Len, b.Len)
-			}
-			m.quiet--
-			if ok {
-				perm[u], used[v], found = v, true, true
-				break
+		pick := -1
+		// same type and length; among those, one created under the same condition is preferred (two scratch tables of
+		// the same shape on exclusive paths)
+		for pass := 0; pass < 2 && pick < 0; pass++ {
+			for v, y := range bs {
+				b := y.(*Event)
+				if used[v] || normType(a.Type) != normType(b.Type) || (a.Len == nil) != (b.Len == nil) {
+					continue
+				}
+				m.quiet++
+				ok := true
+				if a.Len != nil {
+					ok, _ = m.eqTerms(a.Len, b.Len)
+				}
+				if ok && pass == 0 {
+					m.valuesOnly = true
+					ok, _ = m.eqTerms(a.Guard, b.Guard)
+					m.valuesOnly = false
+				}
+				m.quiet--
+				if ok {
+					pick = v
+					break
+				}
 			}
 		}
-		if !found {
+		if pick < 0 {
 			return nil, false
 		}
+		perm[u], used[pick] = pick, true
 	}
 	return perm, true
 }
